@@ -40,7 +40,9 @@ def gen_assign(rng, params, mode, fnames=()):
     out = []
     for k in keys:
         base = k.rsplit(".", 1)[-1]
-        if base in H.COUNT_NAMES:
+        if base in H.POW_EXPONENTS:
+            out.append([k, ["int", rng.randint(0, 4)]])
+        elif base in H.COUNT_NAMES:
             out.append([k, ["int", rng.randint(0, 5)]])
         elif base.startswith("#") or base in H.SIZE_POOL:
             out.append([k, ["int", rng.randint(1, 9)]])
